@@ -385,13 +385,33 @@ class Pred:
             return Pred('ge0', -self.arg - 1)
         if self.kind == 'gt0':
             return Pred('ge0', -self.arg)
+        if self.kind == 'and':      # De Morgan: negations are pushed to the comparisons (one normal form for both spellings)
+            ps = [as_pred(p).negate() for p in self.arg]
+            return Pred.disj(ps)
+        if self.kind == 'or':
+            return Pred.conj([as_pred(p).negate() for p in self.arg])
         return Pred('not', self)
 
     def __and__(self, o):
         return Pred.conj([self, o])
 
     def __or__(self, o):
-        return Pred('or', tuple(sorted([self, as_pred(o)], key=_key)))
+        return Pred.disj([self, o])
+
+    @staticmethod
+    def disj(ps):
+        flat = []
+        for p in ps:
+            if isinstance(p, (bool, np.bool_)):
+                if p:
+                    return True
+                continue
+            p = as_pred(p)
+            flat.extend(p.arg if p.kind == 'or' else [p])
+        if not flat:
+            return False
+        uniq = sorted(set(flat), key=repr)
+        return uniq[0] if len(uniq) == 1 else Pred('or', tuple(uniq))
 
     @staticmethod
     def conj(ps):
@@ -838,8 +858,8 @@ class AT:
             shape = tuple(shape[0])
         return jnp_reshape(self, shape)
     def astype(self, _): return self
-    def sum(self, axis=None): return jnp_sum(self, axis)
-    def mean(self, axis=None): return jnp_mean(self, axis)
+    def sum(self, axis=None, **kw): return jnp_sum(self, axis, **kw)
+    def mean(self, axis=None, **kw): return jnp_mean(self, axis, **kw)
 
     def scalar(self):
         if self.axes != ():
@@ -1072,6 +1092,17 @@ def _concat_symbolic(items, k):
     raise Top(f"concatenate along symbolic axis {[i.axes for i in items]}")
 
 
+def jnp_column_stack(items):
+    items = [to_at(i) for i in items]
+    items = [jnp_expand_dims(i, 1) if len(i.axes) == 1 else (jnp_expand_dims(jnp_expand_dims(i, 0), 1) if len(i.axes) == 0 else i) for i in items]
+    return jnp_concatenate(items, 1)
+
+
+def jnp_vstack(items):
+    items = [jnp_atleast_2d(to_at(i)) for i in items]
+    return jnp_concatenate(items, 0)
+
+
 def jnp_hstack(items):
     items = [jnp_atleast_1d(to_at(i)) for i in items]     # numpy semantics: atleast_1d first
     if len(items[0].axes) == 1:
@@ -1079,8 +1110,18 @@ def jnp_hstack(items):
     return jnp_concatenate(items, 1)
 
 
-def jnp_sum(a, axis=None, **kw): return _reduce(a, axis, 'Sum')
-def jnp_mean(a, axis=None, **kw): return _reduce(a, axis, 'Mean')
+def _reduce_kd(a, axis, kind, keepdims=False, **kw):
+    r = _reduce(a, axis, kind)
+    if keepdims:
+        a = to_at(a)
+        nd = len(a.axes)
+        for k in sorted({x % nd for x in _axes_list(axis, nd)}):
+            r = jnp_expand_dims(r, k)
+    return r
+
+
+def jnp_sum(a, axis=None, **kw): return _reduce_kd(a, axis, 'Sum', **kw)
+def jnp_mean(a, axis=None, **kw): return _reduce_kd(a, axis, 'Mean', **kw)
 
 
 def _axes_list(axis, nd):
@@ -1285,7 +1326,15 @@ def jnp_reshape(a, shape):
             else:
                 raise Top(f"flatten of symbolic tensor {a.axes}")
         else:
-            raise Top("reshape with -1 on a symbolic tensor")
+            named = [x for x in src if not isinstance(x, int)]
+            conc_src = [x for x in src if isinstance(x, int)]
+            rest = [x for x in tgt if x != -1]
+            import math
+            if tgt.count(-1) == 1 and len(named) == 1 and all(isinstance(x, int) for x in rest) \
+                    and math.prod(rest) == math.prod(conc_src) and (src.index(named[0]) == 0) == (tgt.index(-1) == 0 or all(x == 1 for x in tgt[:tgt.index(-1)])):
+                tgt = [named[0] if x == -1 else x for x in tgt]
+            else:
+                raise Top("reshape with -1 on a symbolic tensor")
     core = [x for x in tgt if x != 1]
     # a product row axis Prod(A,B) (A major) reshapes to the two axes (A, B) and back
     if len(src) >= 1 and isinstance(src[0], str) and src[0].startswith("Prod(") and len(core) == len(src) + 1:
@@ -1451,11 +1500,13 @@ def jnp_moveaxis(a, source, destination):
 
 def jnp_transpose(a, axes=None):
     a = to_at(a)
-    if axes is not None:
-        raise Top("transpose with explicit axes")
-    if not all(isinstance(x, int) for x in a.axes):
-        raise Top("transpose of a symbolic tensor")
-    return AT(a.axes[::-1], a.data.T)
+    n = len(a.axes)
+    perm = list(range(n))[::-1] if axes is None else [_dim(x) % n for x in axes]
+    if sorted(perm) != list(range(n)):
+        raise Finding(f"transpose axes {axes} are not a permutation of {n} axes")
+    conc = [i for i in range(n) if isinstance(a.axes[i], int)]
+    cperm = [conc.index(i) for i in perm if isinstance(a.axes[i], int)]
+    return AT(tuple(a.axes[i] for i in perm), np.transpose(a.data, cperm) if cperm else a.data)
 
 
 def jnp_diag(a):
@@ -1596,7 +1647,16 @@ def _argnum(argnums):
     return n
 
 
+def _multi_argnums(maker, f, argnums, kw):
+    """argnums given as a tuple / list: a tuple of results, one per argument"""
+    subs = [maker(f, a, **kw) for a in argnums]
+    return lambda *args: tuple(h(*args) for h in subs)
+
+
 def jax_grad(f, argnums=0, **kw):
+    if isinstance(argnums, (tuple, list)):
+        return _multi_argnums(jax_grad, f, argnums, kw)
+
     def g(*args):
         val = to_at(f(*args))
         if val.axes != ():
@@ -1618,6 +1678,9 @@ def jax_grad(f, argnums=0, **kw):
 
 
 def jax_jac(f, argnums=0, **kw):
+    if isinstance(argnums, (tuple, list)):
+        return _multi_argnums(jax_jac, f, argnums, kw)
+
     def g(*args):
         val = to_at(f(*args))
         k = _argnum(argnums)
